@@ -139,7 +139,7 @@ func checkPlain(w *World, model *plainModel, ncf, nkeys int) {
 				found, got = true, e.Value
 			case errors.Is(err, utils.ErrKeyNotFound):
 			default:
-				w.Res.Violate(w.step, "read_error", readErrSig(w, "GetCF", err), "GetCF(%v,%q): %v; copies: %s", cf, key, err, DescribeCopies(w, cf, key))
+				w.Res.Violate(w.step, "read_error", readErrSig(w, "GetCF", err, []byte{byte(cf)}, key), "GetCF(%v,%q): %v; copies: %s", cf, key, err, DescribeCopies(w, cf, key))
 				continue
 			}
 			expFound := exp != nil && exp.written && !exp.deleted
